@@ -7,6 +7,7 @@
 import YkDrv.Util
 import YkDrv.CoreDrv
 import YkModel.Reload
+import YkModel.ReloadPlace
 open Lean Yk Yk.Reload
 
 namespace YkDrv
@@ -44,8 +45,71 @@ def rlQueue (j : Json) : Except String RQ := do
          apps := ← (fld j "apps") >>= jStrList, reserved := ← (fld j "reserved") >>= jListOf jPairSN,
          running := ← (fld j "running") >>= jNat, allocating := ← (fld j "allocating") >>= jStrList }
 
+/-- node sorting policy (type, resource weights as printed), preemption flags, placement rules in force -/
+def rlPSettings (j : Json) : Except String PSettings := do
+  pure { nodeSort := ← (fld j "sort") >>= jStr,
+         weights := ← (← jArr (fldD j "weights" (.arr #[]))).toList.mapM (fun e => do
+           let a ← jArr e
+           if a.size != 2 then throw "bad weight pair"
+           pure (← jStr a[0]!, ← jStr a[1]!)),
+         preemption := ← (fld j "preempt") >>= jBool, quotaPreemption := ← (fld j "quota") >>= jBool,
+         ruleNames := ← (fld j "ruleNames") >>= jStrList, rules := ← (fld j "rules") >>= jStr }
+
+def showPSettings (s : PSettings) : String :=
+  s!"[nodesort={s.nodeSort},weights={s.weights},preemption={s.preemption},quotaPreemption={s.quotaPreemption},rules={s.ruleNames}]"
+
+/-- first field on which the settings of two partitions differ -/
+def psDiff (a b : PSettings) : Option String :=
+  if a.nodeSort != b.nodeSort then some s!"nodesortpolicy.type {a.nodeSort} / {b.nodeSort}"
+  else if a.weights != b.weights then some s!"nodesortpolicy.resourceweights {a.weights} / {b.weights}"
+  else if a.preemption != b.preemption then some s!"preemption.enabled {a.preemption} / {b.preemption}"
+  else if a.quotaPreemption != b.quotaPreemption then some s!"preemption.quotapreemptionenabled {a.quotaPreemption} / {b.quotaPreemption}"
+  else if a.ruleNames != b.ruleNames then some s!"placementrules {a.ruleNames} / {b.ruleNames}"
+  else if a.rules != b.rules then some s!"placementrules {a.rules} / {b.rules}"
+  else none
+
 def rlPart (j : Json) : Except String (String × Part) := do
-  pure (← (fld j "name") >>= jStr, { tree := ← (fld j "queues") >>= jListOf rlQueue, settings := ← (fld j "settings") >>= jStr, limits := "" })
+  pure (← (fld j "name") >>= jStr, { tree := ← (fld j "queues") >>= jListOf rlQueue, settings := ← (fld j "settings") >>= rlPSettings, limits := "" })
+
+/-! ### placement rules in force and submissions (YkModel/Place.lean through YkModel/ReloadPlace.lean) -/
+
+/-- a rule as the harness reads it back from the rule DAOs: name, value (fixed: queue, tag: tag name), create, parent -/
+partial def rlPRule (j : Json) : Except String Place.Rule := do
+  let name := (← (fld j "name") >>= jStr).toLower
+  let value := ((jStr (fldD j "value" (.str ""))).toOption.getD "").toLower.toList
+  let create ← jBool (fldD j "create" (.bool false))
+  let kind ← if name == "provided" then pure Place.Kind.provided
+    else if name == "user" then pure Place.Kind.user
+    else if name == "tag" then pure (Place.Kind.tag value)
+    else if name == "fixed" then pure (Place.Kind.fixed value)
+    else throw s!"unknown rule {name}"
+  let parents ← match fldD j "parent" .null with
+    | .null => pure []
+    | p => rlPRule p
+  pure ({ kind := kind, create := create, filter := Place.newFilter (fun _ => false) [] [] [] } :: parents)
+
+/-- the rule list in force in the default partition of a dump (none: a rule outside the model, e.g. one with a filter) -/
+def rlRulesInForce (st : Json) : Option (List Place.Rule) :=
+  let parts := ((jArr (fldD st "parts" (.arr #[]))).toOption.getD #[]).toList
+  match parts.find? (fun pj => (jStr (fldD pj "name" (.str ""))).toOption.getD "" == "[rm-verif]default") with
+  | none => none
+  | some pj =>
+    if !((jBool (fldD pj "prulesModelled" (.bool false))).toOption.getD false) then none
+    else match (jArr (fldD pj "prules" (.arr #[]))) with
+      | .error _ => none
+      | .ok a => (a.toList.mapM rlPRule).toOption
+
+def showPKind : Place.Kind → String
+  | .provided => "provided" | .user => "user" | .tag n => s!"tag({String.ofList n})" | .fixed v => s!"fixed({String.ofList v})" | .recovery => "recovery"
+
+/-- a rule with its parent rules: `user+create<fixed(root.c)+create` -/
+def showPRule (r : Place.Rule) : String :=
+  "<".intercalate (r.map (fun nd => showPKind nd.kind ++ (if nd.create then "+create" else "")))
+
+def rlTags (j : Json) : List (Place.Str × Place.Str) :=
+  match j with
+  | .obj kvs => kvs.toList.filterMap (fun (k, v) => match jStr v with | .ok x => some (k.toList, x.toList) | .error _ => none)
+  | _ => []
 
 def rlCluster (st : Json) : Except String Cluster := do (fld st "parts") >>= jListOf rlPart
 
@@ -87,7 +151,7 @@ def rlConf (cfg : Json) (fresh : List (String × Option Part)) : Except String (
     let root := fldD p "root" .null
     let rootName ← match root with | .null => pure "" | r => (fld r "name") >>= jStr
     let qs ← match root with | .null => pure [] | r => rlFlatten r ""
-    let settings := match fresh.find? (fun e => e.1 == n) with | some (_, some fp) => fp.settings | _ => ""
+    let settings : PSettings := match fresh.find? (fun e => e.1 == n) with | some (_, some fp) => fp.settings | _ => {}
     pure { name := n, rootName := rootName, queues := qs, settings := settings, limits := (jStr (fldD p "limits" (.str ""))).toOption.getD "",
            rulesBad := ← (fld p "rulesBad") >>= jBool })
 
@@ -165,7 +229,7 @@ def clusterDiff (m i : Cluster) : Option String :=
   match m.findSome? (fun (n, p) => match i.get n with
       | none => some s!"partition {n} model=present impl=missing"
       | some x =>
-        if p.settings != x.settings then some s!"settings[{n}] model={p.settings} impl={x.settings}"
+        if p.settings != x.settings then some s!"settings[{n}] {(psDiff p.settings x.settings).getD ""} model={showPSettings p.settings} impl={showPSettings x.settings}"
         else (treeDiffR p.tree x.tree).map (fun d => s!"[{n}] {d}")) with
   | some d => some d
   | none => i.findSome? (fun (n, _) => if (m.get n).isNone then some s!"partition {n} model=missing impl=present" else none)
@@ -178,6 +242,7 @@ structure ReloadSt where
   text : String := ""                 -- configuration in force
   rules : String := "other"           -- placement rules of the default partition: provided-create | provided | other
   groupLimits : List String := []     -- group@path of every group limit handed to the user manager last
+  prules : Option (List Place.Rule) := none  -- placement rules in force in the default partition (read back from the rule DAOs)
 
 def rlUsageOf (pre : String) (l : List (String × List UsageEntry)) : List (String × List (String × Res × List String)) :=
   l.map (fun (x : String × List UsageEntry) =>
@@ -199,7 +264,7 @@ def acceptedClauses (n : String) (pre post : Part) (pc : PC) (fresh : Option Par
   let applied : List String := match fresh with
     | none => [s!"C16.L0 accepted configuration has no fresh load [{n}]"]
     | some f =>
-      (if post.settings != f.settings then [s!"C16.S1 partition settings [{n}] reload={post.settings} fresh={f.settings}"] else []) ++
+      (if post.settings != f.settings then [s!"C16.S1 partition settings [{n}] {(psDiff post.settings f.settings).getD ""} reload={showPSettings post.settings} fresh={showPSettings f.settings}"] else []) ++
       pc.queues.filterMap (fun c =>
         match post.tree.find c.path, f.tree.find c.path with
         | none, _ => some s!"C16.L0 configured queue missing after reload {c.path}"
@@ -273,7 +338,7 @@ def reloadStep (st : ReloadSt) (j : Json) : Except String (ReloadSt × String) :
       let gl : List String := match ((jArr cfgJ0).toOption.getD #[]).toList.getLast? with
         | some p => (jStrList (fldD p "limitGroupPaths" (.arr #[]))).toOption.getD []
         | none => []
-      let st' : ReloadSt := { prev := some d, cl := cl, text := text, rules := rules, groupLimits := gl }
+      let st' : ReloadSt := { prev := some d, cl := cl, text := text, rules := rules, groupLimits := gl, prules := rlRulesInForce d }
       if !(conf.all (fun pc => confWF pc.queues)) then return (st', "bad-op configuration list not well-formed")
       -- the initial load is a fresh load of every partition
       match updateSchedulerConfig [] conf with
@@ -293,8 +358,8 @@ def reloadStep (st : ReloadSt) (j : Json) : Except String (ReloadSt × String) :
   let post ← fld j "st"
   let cl := withLimits (← rlCluster post) st.cl
   let pre := st.cl
-  let some prevJ := st.prev | return ({ st with prev := some post, cl := cl }, "ok no-previous-state")
-  let base : ReloadSt := { st with prev := some post, cl := cl }
+  let some prevJ := st.prev | return ({ st with prev := some post, cl := cl, prules := rlRulesInForce post }, "ok no-previous-state")
+  let base : ReloadSt := { st with prev := some post, cl := cl, prules := rlRulesInForce post }
   let inv0 : List String := (cl.filterMap (fun (_, p) => shapeInv p.tree)) ++
     -- the rest of the well-formedness the marking theorems are about (proved invariant for the model: `w0_reachable`)
     (cl.filterMap (fun (n, p) =>
@@ -481,8 +546,39 @@ def reloadStep (st : ReloadSt) (j : Json) : Except String (ReloadSt × String) :
             | none => none) ++
         x.tree.filterMap (fun y => if (p.tree.find y.path).isNone && y.managed then some s!"C16.N3 {op} created the managed queue {y.path}" else none))).flatten
     -- submission through the provided rule: the model's answer (open ACLs, one rule)
+    let hasDefault : Bool := match pre.get "[rm-verif]default" with | some p0 => (p0.tree.find "root.default").isSome | none => false
+    -- the whole rule chain (YkModel/Place.lean on the tree of the reload model): the answer PartitionContext.AddApplication
+    -- gives for the rule list in force — every configured rule, the recovery rule, the root.default fall-back of the last
+    -- rule — against the recorded answer; and the clause itself on the recorded answer: never into a draining queue
+    let subPlace : List String × Bool :=
+      if op != "app-add" then ([], false) else
+      match st.prules, pre.get "[rm-verif]default", j.getObjVal? "placed" with
+      | some rules, some p0, .ok pj =>
+        let id := (jStr (fldD j "id" (.str ""))).toOption.getD ""
+        if p0.tree.any (fun x => x.apps.contains id) then ([], false) else
+        let gang := match j.getObjVal? "phAsk" with | .ok _ => true | .error _ => false
+        let a : Place.App := { user := { name := ((jStr (fldD j "user" (.str ""))).toOption.getD "").toList,
+                                         groups := (((jStr (fldD j "groups" (.str ""))).toOption.getD "").splitOn " ").filterMap (fun g => if g.isEmpty then none else some g.toList) },
+                               queue := ((jStr (fldD j "queue" (.str ""))).toOption.getD "").toList, tags := rlTags (fldD j "tags" .null) }
+        let mo := Place.submit p0.tree rules a
+        let acc := (jBool (fldD pj "acc" (.bool false))).toOption.getD false
+        let iq := (jStr (fldD pj "queue" (.str ""))).toOption.getD ""
+        let showM : String := match mo with | .accepted _ => s!"accepted({mo.queueText})" | .panic => "panic" | .rejected r => s!"rejected({(toString (repr r)).replace "Yk.Place.Reason." ""})"
+        let showI : String := if acc then s!"accepted({iq})" else "rejected"
+        let ctx := s!"{id} queue={(jStr (fldD j "queue" (.str ""))).toOption.getD ""} rules={rules.map showPRule}"
+        let diff : List String := match mo with
+          | .accepted _ => if acc && iq == mo.queueText then [] else if !acc && gang then [] else [s!"diff reload.place {ctx} model={showM} impl={showI}"]
+          | .rejected _ => if acc then [s!"diff reload.place {ctx} model={showM} impl={showI}"] else []
+          | .panic => [s!"diff reload.place {ctx} model={showM} impl={showI}"]
+        let drain : List String :=
+          if !acc then [] else match p0.tree.find iq with
+            | some q => if q.state == .draining then [s!"C16.D2 application {ctx} was accepted into the draining queue {iq}"] else []
+            | none => []
+        (diff ++ drain, true)
+      | _, _, _ => ([], false)
     let sub : List String × Bool :=
-      if op != "app-add" || st.rules == "other" then ([], false) else
+      -- the single provided rule against `admits` (no root.default: that rule list has no fall-back then)
+      if op != "app-add" || st.rules == "other" || hasDefault || ((jStr (fldD j "queue" (.str ""))).toOption.getD "").isEmpty then ([], false) else
       let q0 := ((jStr (fldD j "queue" (.str ""))).toOption.getD "").toLower
       -- the provided rule qualifies a name that is not below root
       let q := if q0.startsWith "root." then q0 else "root." ++ q0
@@ -498,7 +594,8 @@ def reloadStep (st : ReloadSt) (j : Json) : Except String (ReloadSt × String) :
         else if !got && want && !gang then ([s!"diff reload.submit {id} -> {q} model=accepted impl=refused"], true)
         else ([], true)
       | _, _ => ([], false)
-    let diffs := sub.1.filter (fun s => s.startsWith "diff ")
+    let diffs := (subPlace.1 ++ sub.1).filter (fun s => s.startsWith "diff ")
+    let placeClauses := subPlace.1.filter (fun s => !(s.startsWith "diff "))
     -- liveness probe: scheduling cycles ran to quiescence on a node with room for everything. A probe ask that is still
     -- pending although nothing the scheduler looks at stands in its way (application runnable, no back-off, queue and
     -- user headroom, room on the node) was starved. In a draining leaf / below a draining queue that breaks "existing
@@ -520,6 +617,6 @@ def reloadStep (st : ReloadSt) (j : Json) : Except String (ReloadSt × String) :
           (if control.isEmpty then none
            else some s!"C16.K1 draining-queue-keeps-running: {sv pj "app"} in {sv pj "queue"} ({sv pj "qstate"}{if b pj "ancDraining" then ", below a draining queue" else ""}) has the pending ask {sv pj "key"} that fits the node, its queue and its user, and is not allocated within {cycles} cycles, while {control.map (fun c => sv c "app")} in active leaves were served")
         else none)
-    return finish base diffs.head? (frame ++ probeClauses) (if sub.2 then "ok" else "ok unmodelled")
+    return finish base diffs.head? (frame ++ placeClauses ++ probeClauses) (if sub.2 || subPlace.2 then "ok" else "ok unmodelled")
 
 end YkDrv
